@@ -177,7 +177,17 @@ func RunBadTargets() {
 	}
 	var u unexp
 	var f func()
-	k := nd.Choice(11)
+	type Level int
+	type ID string
+	type Span int64
+	var named struct {
+		L Level `xsel:"count(/r/a)"`
+	}
+	var namedStr struct {
+		I *ID `xsel:"/r/n"`
+	}
+	var namedSlice []Span
+	k := nd.Choice(14)
 	var err error
 	switch k {
 	case 0:
@@ -200,6 +210,14 @@ func RunBadTargets() {
 		err = xsel.Unmarshal(ns, &u)
 	case 9:
 		err = xsel.Unmarshal(ns, &f)
+	case 11:
+		// fields and elements of named basic types cannot be assigned the plain
+		// int/string values the library builds
+		err = xsel.Unmarshal(ns, &named)
+	case 12:
+		err = xsel.Unmarshal(ns, &namedStr)
+	case 13:
+		err = xsel.Unmarshal(ns, &namedSlice)
 	case 10:
 		// wrong result shape: a struct from a two-node node-set
 		var t Target
@@ -346,4 +364,44 @@ func RunNumbers() {
 		want = "true"
 	}
 	nd.Assert(t.S == want, "numbers.string-of-boolean")
+}
+
+func firstLabel(root xsel.Cursor) (string, error) {
+	type Item struct {
+		Label string `xsel:"/r/a[1]"`
+	}
+	var t Item
+	err := xsel.Unmarshal(xsel.NodeSet{root}, &t)
+	return t.Label, err
+}
+
+func numberLabel(root xsel.Cursor) (string, error) {
+	type Item struct { // same package, same type name, same field name: another tag
+		Label string `xsel:"/r/n"`
+	}
+	var t Item
+	err := xsel.Unmarshal(xsel.NodeSet{root}, &t)
+	return t.Label, err
+}
+
+// RunSameNamedTypes: a tag belongs to its field of its type: two distinct
+// struct types that share package, type name and field name (declared in two
+// functions) each get their own query, in either order of use, and again.
+func RunSameNamedTypes() {
+	b := doc()
+	order := nd.Choice(2)
+	nd.Reach("same-named-types")
+	wantA := ""
+	if len(b.as) > 0 {
+		wantA = b.as[0]
+	}
+	for k := 0; k < 3; k++ {
+		if (k+order)%2 == 0 {
+			s, err := firstLabel(b.root)
+			nd.Assert(err == nil && s == wantA, "same-named.first-type-uses-its-own-tag")
+		} else {
+			s, err := numberLabel(b.root)
+			nd.Assert(err == nil && s == b.n, "same-named.second-type-uses-its-own-tag")
+		}
+	}
 }
